@@ -102,8 +102,9 @@ Theorem C02_error_is_warning_and_continues : forall conns Ts n,
 Proof. exact m_error. Qed.
 Print Assumptions C02_error_is_warning_and_continues.
 
-(* skip round trip: no upstream contact and a warning-free 200 reaches the
-   response modifier (and, by the previous theorem, the client) — for plain
+(* skip round trip: no upstream contact and, unless the same call hijacked
+   the session, a warning-free 200 reaches the response modifier (and, by
+   the previous theorem, the client) — for plain
    requests and MITM'd CONNECTs.  Guard: no request is a blindly tunnelled
    CONNECT whose request modifier asked to skip. *)
 Theorem C02_skip_means_no_upstream_and_200_through_resmod_partial : forall conns Ts n,
@@ -114,7 +115,8 @@ Theorem C02_skip_means_no_upstream_and_200_through_resmod_partial : forall conns
       let E := ex (b + i) T in
       E = [] \/
       (is_qskip q = true ->
-       (forall e, In e E -> is_contact e = false) /\ find_resmod E = Some (200, 0)))
+       (forall e, In e E -> is_contact e = false) /\
+       (is_qhijack q = true \/ find_resmod E = Some (200, 0))))
     0 0 conns Ts.
 Proof. exact m_skip. Qed.
 Print Assumptions C02_skip_means_no_upstream_and_200_through_resmod_partial.
@@ -169,21 +171,23 @@ Theorem C02_pinned_commit_connect_context_refuted :
 Proof. exact asis_connect_refuted. Qed.
 Print Assumptions C02_pinned_commit_connect_context_refuted.
 
-(* Non-vacuity: a case with an error, a skip, a failed round trip with
-   "Connection: close", a second connection with a MITM'd CONNECT, an inner
-   request and a hijack by the response modifier. *)
+(* Non-vacuity: an erroring request and response modifier, a skip combined
+   with an error, a failed round trip with "Connection: close"; a second
+   connection with a MITM'd CONNECT whose response modifier fails, an inner
+   request answered by a round tripper that returns a foreign res.Request,
+   and a response modifier that hijacks AND returns an error. *)
 Example C02_example :
   model_obs fixed
-    [[mkReq Plain QErr RtOk SErr false; mkReq Plain QSkip RtOk SPass false;
-      mkReq Plain QPass RtFail SPass true; mkReq Plain QPass RtOk SPass false];
-     [mkReq ConnectMitm QPass RtOk SPass false; mkReq Plain QPass RtOk SPass false;
-      mkReq Plain QPass RtOk SHijack false; mkReq Plain QPass RtOk SPass false]]
+    [[mkReq Plain false true false RtOk false true false; mkReq Plain false true true RtOk false false false;
+      mkReq Plain false false false RtFail false false true; mkReq Plain false false false RtOk false false false];
+     [mkReq ConnectMitm false false false RtOk false true false; mkReq Plain false false false RtClone false false false;
+      mkReq Plain false false false RtNil true true false; mkReq Plain false false false RtOk false false false]]
   = Some
     ([[ReqMod 0 0 0 [0]; Upstream 0 true 1 1; ResMod 0 true 0 0 203 0 [0]; Write 0 203 1 false 1;
        ReqMod 1 1 0 [1]; ResMod 1 true 1 0 200 0 [1]; Write 1 200 0 false 1;
        ReqMod 2 2 0 [2]; Upstream 2 true 0 1; ResMod 2 true 2 0 502 1 [2]; Write 2 502 1 true 1;
        SockClose];
-      [ReqMod 4 3 1 [4]; ResMod 4 true 3 1 200 0 [4]; Write 4 200 0 false 1;
+      [ReqMod 4 3 1 [4]; ResMod 4 true 3 1 200 0 [4]; Write 4 200 1 false 1;
        ReqMod 5 4 1 [5]; Upstream 5 true 0 1; ResMod 5 true 4 1 203 0 [5]; Write 5 203 0 false 1;
        ReqMod 6 5 1 [6]; Upstream 6 true 0 1; ResMod 6 true 5 1 203 0 [6]; HijackRet 6;
        SockClose]], 0).
@@ -191,5 +195,6 @@ Proof. vm_compute. reflexivity. Qed.
 
 Example C02_example_guard_met :
   forallb (forallb (fun q => negb (is_blind q && is_qskip q)))
-    [[mkReq Plain QSkip RtOk SPass false]; [mkReq ConnectMitm QSkip RtOk SPass false]] = true.
+    [[mkReq Plain false false true RtOk false false false];
+     [mkReq ConnectMitm true true true RtOk false false false]] = true.
 Proof. reflexivity. Qed.
